@@ -12,8 +12,11 @@ open AgdbColl
 structure DState where
   mm : MM Nat Nat
   db : Db
+  /-- the case ran out of fuel (the real call would not have returned): the harness answers `dead`
+  for the rest of the case, so does the driver -/
+  dead : Bool
 
-def DState.init : DState := ⟨MM.new, Db.init⟩
+def DState.init : DState := ⟨MM.new, Db.init, false⟩
 
 def hid (k : Nat) : Nat := k
 
@@ -155,8 +158,13 @@ def stepLine (st : DState) (line : String) : DState × String :=
   let toks := line.trimAscii.toString.splitOn " "
   match toks with
   | ["case", _] => (DState.init, line.trimAscii.toString)
-  | "mm" :: rest => stepMM st rest
+  | "mm" :: rest =>
+    if st.dead then (st, "dead")
+    else
+      let (st', o) := stepMM st rest
+      if o = "timeout" then ({ st' with dead := true }, o) else (st', o)
   | "db" :: rest =>
+    if st.dead then (st, "dead") else
     match Db.step st.db rest with
     | some (db', out) => ({ st with db := db' }, out)
     | none => (st, "bad-op")
